@@ -10,12 +10,13 @@ from .zmqmodel import *
 
 
 class Shape:
-    def __init__(self, modes, ephs, balance, timeout='none', state='none'):
+    def __init__(self, modes, ephs, balance, timeout='none', state='none', entry='fresh'):
         self.modes, self.ephs, self.balance, self.timeout, self.state = tuple(modes), tuple(ephs), balance, timeout, state
+        self.entry = entry      # 'fresh': first call / after a call that returned a set;  'held': after a call that timed out (the sources may still hold frames)
         self.S = len(modes)
 
     def __repr__(self):
-        return f'Shape(modes={self.modes}, eph={self.ephs}, balance={self.balance}, timeout={self.timeout}, state={self.state})'
+        return f'Shape(modes={self.modes}, eph={self.ephs}, balance={self.balance}, timeout={self.timeout}, state={self.state}, entry={self.entry})'
 
 
 def opt_parts(r):
@@ -83,6 +84,8 @@ class World:
                       push=Obj('pushsock', log=self.pushlog, _k=k, tagged=True) if shape.ephs[k] < 2 else None,
                       recvd_new=None if mode != 'explicit' else SDict(subk, z3.K(Topic, OptMsg.none)),
                       init_recvd=lam, conn=False, min_recv_id=0, _src=src, _mode=mode, _subk=subk)
+            if snd.f['push'] is not None:
+                snd.f['push'].f['owner'] = snd
             self.senders.append(snd)
         self.poller = self.new_poller(ex)
         self.me = Obj('ZMQReceiver', client_id='c', balance=shape.balance, low_latency=False, prev_id=z3.Int('prev_id0'),
@@ -114,9 +117,10 @@ class World:
         ex.cover(f'message:{kind}')
 
     def inv(self, env, pend=None):
-        m = env.lookup('min_recv_id')
-        out = [('C02.order: min_recv_id never below the id expected at entry', m >= self.m_entry)]
-        poller = env.lookup('poller')
+        return self.inv_at(env.lookup('min_recv_id'), env.lookup('poller'), pend)
+
+    def inv_at(self, m, poller, pend=None, order=True):
+        out = [('C02.order: min_recv_id never below the id expected at entry', m >= self.m_entry)] if order else []
         for k, s in enumerate(self.senders):
             if s.f['ephemeral']:
                 continue
@@ -126,6 +130,13 @@ class World:
                 others = [z3.And(z3.Not(active(o)), z3.Not(poller.f['reg'][o.f['sub']])) for o in self.senders if o is not s]
                 out.append((f'C07.RInv(balanced source{k}): single id, single active source, the others unregistered',
                             z3.Implies(active(s), z3.And(inv_sender(s, m, keys_clause=False), *others))))
+        for k, s in enumerate(self.senders):
+            if s.f['_mode'] == 'explicit':
+                tt = z3.Const('tt', Topic)
+                tpl = s.f['recvd_new']
+                out.append((f'C01.RInv(template of source{k}): the set template of an explicit subscription always names exactly the subscribed topics, all empty',
+                            z3.ForAll([tt], z3.And(tpl.keys[tt] == s.f['_subk'][tt], z3.Implies(tpl.keys[tt], tpl.vals[tt] == OptMsg.none)))
+                            if isinstance(tpl, SDict) else z3.BoolVal(False)))
         if pend is not None:
             for sub, p in pend.items():
                 out.append((f'pending polled socket {sub.f["_k"]} is registered', z3.Implies(p, poller.f['reg'][sub])))
@@ -148,7 +159,9 @@ class World:
         s.f['recvd'] = OptV(fr('isnone') if mode != 'explicit' else z3.BoolVal(False), SDict(fr('keys', KS), fr('vals', VS)))
         s.f['conn'] = fr('conn')
         s.f['min_recv_id'] = fr('emin', I)
-        s.f['server_id'] = None
+        s.f['server_id'] = Obj('sidtok')     # used for log texts only; any value
+        if mode == 'explicit':      # the per-source set template: havocked, and pinned to the subscription by the invariant (C01.RInv(template))
+            s.f['recvd_new'] = SDict(fr('tkeys', KS), fr('tvals', VS))
 
     def havoc_common(self, ex, env):
         for s in self.senders:
@@ -223,6 +236,19 @@ def run_recv(shape, dec, props, closures=None):
     for s in W.senders:
         s.f['conn'] = fr('conn')
         s.f['min_recv_id'] = fr('emin', I)
+    if shape.entry == 'held':
+        # the previous call timed out: the receiver object invariant RObj is all that is known -- the sources hold (partial) sets of ONE id h, which the receiver
+        # object recorded; h is any id (it may be newer than what this call asks for, or older)
+        h = z3.Int('held_id')
+        for s in W.senders:
+            W.fresh_sender_state(s)
+        for sub in W.me.f['poller'].f['reg']:
+            W.me.f['poller'].f['reg'][sub] = fr('reg')
+        for _, f in W.inv_at(h, W.me.f['poller'], order=False):
+            ex.assume(f)
+        if 'min_recv_id' in W.me.f:
+            W.me.f['min_recv_id'] = h
+        ex.cover('entered after a timed-out call')
     if shape.state == 'none':
         state = None
         ex.assume(W.m_entry == z3.Int('prev_id0') + 1)
@@ -234,7 +260,44 @@ def run_recv(shape, dec, props, closures=None):
     if timeout is not None:
         ex.assume(timeout >= 0)
 
+    def timeout_only_assigned_when_not_none():
+        """syntactic justification for keeping `timeout` across iterations when recv was called with timeout=None: every assignment to `timeout` inside the wait
+        loop sits in the else-part of `if timeout is None:`"""
+        fn = extract.load(ZMQ).find('ZMQReceiver.recv')
+        loops = [n for n in fn.body if isinstance(n, ast.While) and ast.unparse(n.test) == 'True']
+        if len(loops) != 1:
+            return False
+
+        def ok(stmts, guarded):
+            for st in stmts:
+                if isinstance(st, ast.If) and ast.unparse(st.test) == 'timeout is None':
+                    if not ok(st.body, False) or not ok(st.orelse, True):
+                        return False
+                    continue
+                if isinstance(st, (ast.FunctionDef,)):
+                    continue
+                here = [n for n in ast.walk(st) if (isinstance(n, ast.NamedExpr) and n.target.id == 'timeout') or
+                        (isinstance(n, ast.Assign) and any(isinstance(t, ast.Name) and t.id == 'timeout' for t in n.targets))]
+                if isinstance(st, ast.If):
+                    tests_assign = [n for n in ast.walk(st.test) if isinstance(n, ast.NamedExpr) and n.target.id == 'timeout']
+                    if tests_assign and not guarded:
+                        return False
+                    if not ok(st.body, guarded) or not ok(st.orelse, guarded):
+                        return False
+                    continue
+                if here and not guarded:
+                    return False
+            return True
+        return ok(loops[0].body, False)
+
+    # heap frame: sub.incoming is scratch of the socket model (written by the poll model before recv_multipart reads it in the same iteration); the push log is an
+    # append-only ghost log whose obligations are per entry or bounded by push_mark (requests of the returning iteration)
+    HK = (('subsock', 'incoming'), ('pushsock', 'log'))
+
     class L1:      # while True (recv)
+        heap_keeps = HK
+        keeps = ('timeout',) if (timeout is None and timeout_only_assigned_when_not_none()) else ()
+
         @staticmethod
         def inv(ex_, env):
             got = env.lookup('got_all')
@@ -249,6 +312,8 @@ def run_recv(shape, dec, props, closures=None):
                 env.assign('timeout', fr('timeout_left', I))
 
     class L2:      # while socks := poller.poll(timeout)
+        heap_keeps = HK
+
         @staticmethod
         def inv(ex_, env):
             return W.inv(env)
@@ -263,6 +328,8 @@ def run_recv(shape, dec, props, closures=None):
             return 'True' not in stack
 
     class L3:      # while socks
+        heap_keeps = HK
+
         @staticmethod
         def inv(ex_, env):
             socks = env.lookup('socks')
@@ -276,8 +343,9 @@ def run_recv(shape, dec, props, closures=None):
         @staticmethod
         def explore_body(stack):
             return 'True' not in stack
-    recv_src = [ast.unparse(n) for n in ast.walk(extract.load(ZMQ).find('ZMQReceiver.recv')) if isinstance(n, (ast.Assign, ast.Expr))]
-    if recv_src.count('data = {}') != 1 or recv_src.count('self.new_recv()') != 1:
+    blocks = [b for n in ast.walk(extract.load(ZMQ).find('ZMQReceiver.recv')) for b in (getattr(n, 'body', None), getattr(n, 'orelse', None)) if isinstance(b, list)]
+    regions = [b for b in blocks if [ast.unparse(x) for x in b].count('data = {}') == 1]
+    if len(regions) != 1 or 'self.new_recv()' not in [ast.unparse(x) for x in regions[0]][[ast.unparse(x) for x in regions[0]].index('data = {}'):]:
         raise Unsupported('contract no longer binds: the data assembly region of ZMQReceiver.recv (`data = {}` ... `self.new_recv()`) was not found')
     ex.loop_specs = {'True': L1, '(socks := poller.poll(timeout))': L2, 'socks': L3}
     ex.region_hooks = {'data = {}': (assembly_region(W), 'self.new_recv()')}
@@ -286,6 +354,14 @@ def run_recv(shape, dec, props, closures=None):
     try:
         ret = ex.call_closure(closure(ZMQ, 'ZMQReceiver.recv'), [W.me, state, timeout], {})
         ex.outcome = 'return' if ret is not None else 'timeout'
+        if ret is None:
+            # receiver object invariant RObj re-established by a call that times out: the id the buffered sets belong to is recorded for the next call
+            held = W.me.f.get('min_recv_id')
+            ex.oblige('C01.held: a call that times out records the id the sets still held by the sources belong to', held is not None)
+            if held is not None:
+                for n_, f_ in W.inv_at(zi(held), W.me.f['poller'], order=False):
+                    ex.oblige(f'C01.held: after a timed-out call the held sets belong to the recorded id: {n_}', f_)
+            ex.cover('recv timed out')
         if ret is not None:
             ex.cover('recv returned a set')
             data, st = ret
@@ -332,6 +408,13 @@ def run_recv(shape, dec, props, closures=None):
     except ExcSig as e:
         ex.outcome = f'raise {e.cls}'
         ex.oblige(f'C01.no_failure: recv raises {e.cls} ({e.origin})', e.cls == 'RuntimeError' and 'duplicate topic' in e.origin)
+    # C03.handshake (consumer side): a request says `new` exactly while the consumer has not heard from that source yet
+    for k_, m_, conn_ in ex.__dict__.get('push_ghost', []):
+        body = m_[0].f['of'] if isinstance(m_[0], Obj) and m_[0].cls == 'jsonbytes' else None
+        if isinstance(body, dict) and body.get('mid', 0) not in (-2, -3):
+            ex.oblige('C03.handshake: a request carries `new` exactly while the consumer has not yet heard from THAT source (so the publisher waits for the subscription to be up)',
+                      z3.BoolVal(bool(body.get('new'))) == z3.Not(zb(conn_)))
+            ex.cover('request sent')
     # C05.silent: a doubly ephemeral source never sends anything
     for k, msg in [(p, m) for p, m in W.pushlog] if False else []:
         pass
@@ -403,6 +486,9 @@ RECV_MUTANTS = {
     'C05': (
         ('return on a partial ephemeral set', f'{ZMQ}::ZMQReceiver.recv.recv_once', 'got_any_partial = True', 'got_any_partial = False', 'C05.eph_sets'),
         ('request sent to a doubly ephemeral source', f'{ZMQ}::ZMQReceiver.Sender.send_push', 'if self.ephemeral < 2:', 'if self.ephemeral < 3:', ''),
+    ),
+    'C03': (
+        ('`new` never sent (handshake disabled on the consumer side)', f'{ZMQ}::ZMQReceiver.recv.request', "msg_req['new'] = True", "pass", 'C03.handshake'),
     ),
     'C07': (
         ('other sources stay registered after a balanced topic message', f'{ZMQ}::ZMQReceiver.recv.recv_once', 'poller.unregister(s.sub)', 'pass', 'C07.'),
